@@ -172,4 +172,3 @@ var propNotDecided = map[string][]string{
 	},
 }
 
-func genReplay(P *Program, r *FnResult, o *Obligation, prop string) (string, bool) { return "", false }
